@@ -353,6 +353,7 @@ func runC05(c *core.Ctx, o Options) {
 		ent := la.Entry[hsend]
 		c.Check(ent.Holds(hmu, "h", an.ModeW), "K8", "DefaultHandler.send", "every caller of send holds DefaultHandler.mu", hsend.Pos(), "entry lockset "+ent.String(), "send is reachable without DefaultHandler.mu (entry lockset "+ent.String()+")")
 	}
+	c.RuleMin = map[string]int{"K1": 6, "K2": 4, "K3": 8, "K4": 3, "K5": 7, "K6": 1, "K7": 3, "K8": 3}
 	c.MinObl = 35
 }
 
